@@ -112,9 +112,9 @@ func init() {
 		add(C("RENAME", k0, k1), C("RENAME", k1, k0), C("RENAME", k0, k0), C("RENAME", k0, kx), C("RENAME", kx, k0), C("RENAME", k0), C("RENAME", k1, kx))
 		add(C("KEYS", "*"), C("KEYS", k0), C("KEYS", "K*"), C("KEYS"), C("KEYS", "*", "*"))
 		add(C("TYPE"), C("TTL"), C("TYPE", k0, k1))
-		depth := 2
+		depth := 3
 		if tier == "thorough" {
-			depth = 3
+			depth = 4
 		}
 		return &Spec{Prop: "C01", ShardNum: shardNum, Keys: []string{k0, k1, kx}, Alphabet: ops, Seeds: typeSeeds(k0),
 			Depth: depth, Budget: budget(tier, 150*time.Second, 25*time.Minute), TTLTolMs: 1000,
